@@ -989,6 +989,11 @@ class RecordLayer(object):
                 if len(data) > self.recv_record_limit + 1:
                     raise TLSRecordOverflow()
                 data, contentType = self._tls13_de_pad(data)
+                if contentType == ContentType.change_cipher_spec:
+                    # RFC 8446, section 5: only an unprotected CCS is
+                    # tolerated, a protected one is never legal
+                    raise TLSUnexpectedMessage(
+                        "Protected change_cipher_spec record")
                 header = RecordHeader3().create((3, 4), contentType, len(data))
 
             # RFC 5246, section 6.2.1; a negotiated record size limit
